@@ -36,12 +36,12 @@ def run(ctx):
                 "non-isolated rows, then a further transform and update; non-trivial = the batch changes the kNN row of at least one old sample "
                 "or contains samples with no old neighbour")
     ctx.assumptions += ["large-data (NN-descent) branch is out of the property's scope", "graph equality is bitwise: both sides run the same code path"]
-    ncase = 60 if ctx.thorough else 12
     metrics = ["euclidean", "manhattan", "cosine", "jaccard", "hellinger", "user-threshold"]
+    combos = [(m, pl) for pl in ("far", "near", "duplicates") for m in metrics]   # every combination, far ones first
+    ncase = 72 if ctx.thorough else 18
     for t in range(ncase):
-        metric = metrics[t % len(metrics)]
-        placement = str(rng.choice(["near", "far", "duplicates"]))
-        n1 = int(rng.integers(25, 60))
+        metric, placement = combos[t % len(combos)]
+        n1 = int(rng.integers(25, 60)) if t % 6 != 5 else int(rng.integers(4, 9))   # sometimes n1 <= n_neighbors
         d = int(rng.integers(6, 12)) if metric in ("jaccard", "hellinger") else int(rng.integers(2, 6))
         nb = int(rng.integers(1, 4))
         k = int(rng.integers(3, 9))
@@ -63,11 +63,20 @@ def run(ctx):
             else:
                 B = make_data(rng, mname, m, d)
             batches.append(B.astype(np.float32))
-        kw = dict(n_neighbors=k, metric=mname, random_state=11, n_epochs=int(rng.choice([0, 12])), init="random")
+        kw = dict(n_neighbors=k, metric=mname, random_state=11, n_epochs=int(rng.choice([0, 12])), init="random",
+                  set_op_mix_ratio=float(rng.choice([1.0, 0.25, 0.5])), local_connectivity=float(rng.choice([1.0, 2.0])))
         if metric == "user-threshold":
             from sklearn.metrics import pairwise_distances
-            D = pairwise_distances(np.vstack([X1] + batches))
-            kw["disconnection_distance"] = float(np.quantile(D[D > 0], float(rng.choice([0.3, 0.6]))))
+            if placement == "far":
+                # integer lattice with 3-4-5 offsets: some pairs lie *exactly* at the threshold 5.0
+                X1 = rng.integers(0, 7, size=(n1, d)).astype(np.float32)
+                X1[1] = X1[0]; X1[1, 0] += 3; X1[1, -1] += 4 if d > 1 else 0
+                batches = [rng.integers(0, 7, size=b.shape).astype(np.float32) for b in batches]
+                batches[0][0] = X1[2]; batches[0][0, 0] += 5
+                kw["disconnection_distance"] = 5.0
+            else:
+                D = pairwise_distances(np.vstack([X1] + batches))
+                kw["disconnection_distance"] = float(np.quantile(D[D > 0], float(rng.choice([0.3, 0.6]))))
         case = {"metric": metric, "placement": placement, "n1": n1, "k": k, "batch_sizes": [len(b) for b in batches],
                 "X1": X1.tolist(), "batches": [b.tolist() for b in batches], "kwargs": {k_: v for k_, v in kw.items()}}
         if mname == "hellinger" and (X1.sum(1).min() == 0 or min(b.sum(1).min() for b in batches) == 0):
